@@ -1219,7 +1219,8 @@ func c15Baseline(t *testing.T) {
 			}
 			v = vlib.Verdict{}
 			run(c, &v)
-			if v.Inconclusive != "" || v.Discard || (v.OK() && !slices.Contains(v.Labels, "blocked-write-keeps-its-old-destination(allowed)")) {
+			// (that the blocked write keeps its old destination is allowed, not required: its absence is not a machinery fault)
+			if v.Inconclusive != "" || v.Discard {
 				t.Fatalf("VERIF-MACHINERY C15 baseline (hidden=%v side=%d): script with roams while a write is blocked in the socket: %+v %s labels %v", hidden, side, v.Violations, v.Inconclusive, v.Labels)
 			}
 		}
